@@ -447,6 +447,10 @@ func (w *streamingResponseWriter) WriteHeader(status int) {
 	if w.wroteHeader {
 		return
 	}
+	if status >= 100 && status < 200 && status != http.StatusSwitchingProtocols {
+		// Informational (1xx) responses are interim; the final status is still to come.
+		return
+	}
 	w.wroteHeader = true
 
 	// Initialize the response trailers.
